@@ -582,6 +582,7 @@ func (ee *explainer) explainSeqContext1(l *gtab.SeqContext1) {
 }
 
 func (ee *explainer) explainSeqContext2(l *gtab.SeqContext2) {
+	ee.w.WriteRune(' ')
 	ee.defineClasses("class", l.Input)
 	ee.w.WriteRune('/')
 	ee.explainCoverage(l.Cov)
@@ -641,6 +642,7 @@ func (ee *explainer) explainChainedSeqContext1(l *gtab.ChainedSeqContext1) {
 }
 
 func (ee *explainer) explainChainedSeqContext2(l *gtab.ChainedSeqContext2) {
+	ee.w.WriteRune(' ')
 	ee.defineClasses("backtrackclass", l.Backtrack)
 	ee.defineClasses("inputclass", l.Input)
 	ee.defineClasses("lookaheadclass", l.Lookahead)
